@@ -21,6 +21,7 @@ from ..selftest import Mutant
 from . import kinds_driver
 
 PROP = "C01"
+TECHNIQUE = "static analysis: rank-domain abstract interpretation (EXT/INT/FULL index spaces) over the map kernel + CFG must-pass of array materialisation + iteration-source and sibling-decision analysis"
 RUN = "pipefunc.map._run"
 EXPLANATION = (
     "Static analysis of the map kernel: a purpose-built rank-domain type system (external / internal / full index "
